@@ -116,7 +116,11 @@ func genVariant(t *rapid.T, label string, allowMulti bool) Variant {
 		v.Links = append(v.Links, l)
 	}
 	v.Extra = rapid.IntRange(0, 3).Draw(t, label+"_extra") == 0
-	v.Gzip = rapid.IntRange(0, 3).Draw(t, label+"_gz") == 0
+	v.Gzip = rapid.IntRange(0, 2).Draw(t, label+"_gz") == 0
+	if v.Gzip && rapid.Bool().Draw(t, label+"_gzmulti") {
+		// multi-member outer gzip (cat a.gz b.gz, bgzip, ...); equal offsets / 0 give empty members
+		v.GzSplit = rapid.SliceOfN(rapid.IntRange(0, 6000), 1, 3).Draw(t, label+"_gzsplit")
+	}
 	if allowMulti && rapid.IntRange(0, 2).Draw(t, label+"_multi") == 0 {
 		v.Multi = &Multi{
 			DecoyFirst: rapid.Bool().Draw(t, label+"_mfirst"),
@@ -194,6 +198,10 @@ func genDocker(t *rapid.T) Case {
 		nl := rapid.IntRange(0, 3).Draw(t, "nlayers")
 		for i := 0; i < nl; i++ {
 			l := DLayer{SameAs: -1, Comp: rapid.SampledFrom([]string{"none", "none", "gzip", "gzip", "zstd"}).Draw(t, "comp")}
+			if l.Comp == "gzip" && rapid.Bool().Draw(t, "gz_multi") {
+				// 2-4 gzip members (eStargz, bgzip, cat a.gz b.gz); equal offsets / 0 give empty members
+				l.Split = rapid.SliceOfN(rapid.IntRange(0, 2600), 1, 3).Draw(t, "gz_split")
+			}
 			if i > 0 && rapid.IntRange(0, 4).Draw(t, "dup") == 0 {
 				l.SameAs = rapid.IntRange(0, i-1).Draw(t, "same_as")
 			}
@@ -902,7 +910,7 @@ func checkRoundTrip(c Case, ev *evid.Collector) *evid.Violation {
 			if err != nil {
 				return outcome{v: &evid.Violation{Sig: "harness-variant", Msg: err.Error()}}
 			}
-			vraw, err := buildTar(es, v.Gzip)
+			vraw, err := buildTarSplit(es, v.Gzip, v.GzSplit)
 			if err != nil {
 				return outcome{v: &evid.Violation{Sig: "harness-variant", Msg: err.Error()}}
 			}
@@ -1044,6 +1052,9 @@ func checkDocker(c Case, ev *evid.Collector) *evid.Violation {
 	for i := range pim.Layers {
 		l := pim.resolve(i)
 		classes["docker:layer-"+l.Comp] = true
+		if l.Comp == "gzip" && len(l.Split) > 0 {
+			classes["docker:layer-gzip-multimember"] = true
+		}
 		key := fmt.Sprintf("%d", i)
 		sa := pim.Layers[i].SameAs
 		if sa >= 0 && sa < i {
@@ -1060,7 +1071,7 @@ func checkDocker(c Case, ev *evid.Collector) *evid.Violation {
 		// content addressed: identical layer streams share a path even without SameAs
 		seen := map[string]bool{}
 		for i := range pim.Layers {
-			k := string(compress(b.layers[pick][i], pim.resolve(i).Comp))
+			k := string(compress(b.layers[pick][i], pim.resolve(i).Comp, pim.resolve(i).Split))
 			if seen[k] {
 				dupPath = true
 			}
@@ -1092,7 +1103,7 @@ func checkDocker(c Case, ev *evid.Collector) *evid.Violation {
 	}
 	shape := fmt.Sprintf("%s|i%d|p%d|n%v|", dc.Style, len(dc.Images), pick, sel.name != "")
 	for _, l := range pim.Layers {
-		shape += fmt.Sprintf("%s%d.%d,", l.Comp[:1], len(l.Files), l.SameAs)
+		shape += fmt.Sprintf("%s%d.%d.m%d,", l.Comp[:1], len(l.Files), l.SameAs, len(l.Split))
 	}
 	finish := func(outcomeClass string, counted bool) {
 		classes["outcome:"+outcomeClass] = true
@@ -1154,7 +1165,7 @@ func checkDocker(c Case, ev *evid.Collector) *evid.Violation {
 			if err != nil {
 				return outcome{v: &evid.Violation{Sig: "harness-variant", Msg: err.Error()}}
 			}
-			vraw, err := buildTar(es, v.Gzip)
+			vraw, err := buildTarSplit(es, v.Gzip, v.GzSplit)
 			if err != nil {
 				return outcome{v: &evid.Violation{Sig: "harness-variant", Msg: err.Error()}}
 			}
